@@ -91,9 +91,16 @@ func (fr *oFrame) builtinCall(call *ast.CallExpr) (oval, bool) {
 			}
 			return oInt(s.capacity()), true
 		}
+		if m, ok := v.(oMap); ok && name == "len" {
+			return oInt(len(*m.keys)), true
+		}
 		return oTop{name + " of " + showVal(v)}, true
 	case "make":
 		t := fr.info.TypeOf(call.Args[0])
+		if _, ok := t.Underlying().(*types.Map); ok {
+			keys, vals := []oval{}, []oval{}
+			return oMap{typ: t, keys: &keys, vals: &vals}, true
+		}
 		if _, ok := t.Underlying().(*types.Slice); !ok {
 			return oTop{"make of " + t.String()}, true
 		}
@@ -210,6 +217,10 @@ func (fr *oFrame) builtinCall(call *ast.CallExpr) (oval, bool) {
 // indexExpr evaluates x[i] for slices.
 func (fr *oFrame) indexExpr(x *ast.IndexExpr) oval {
 	base := fr.eval(x.X)
+	if m, ok := base.(oMap); ok {
+		v, _ := fr.mapIndex(x, m)
+		return v
+	}
 	s, ok := base.(oSlice)
 	if !ok {
 		return oTop{"index of " + showVal(base)}
@@ -279,6 +290,19 @@ func (fr *oFrame) sliceExpr(x *ast.SliceExpr) oval {
 // storeIndex performs x[i] = v.
 func (fr *oFrame) storeIndex(x *ast.IndexExpr, v oval) oCtl {
 	base := fr.eval(x.X)
+	if m, ok := base.(oMap); ok {
+		k := fr.eval(x.Index)
+		if isTop(k) {
+			return fr.abort("map store with key %s", showVal(k))
+		}
+		if i := m.find(k); i >= 0 {
+			(*m.vals)[i] = fr.rvalue(v)
+		} else {
+			*m.keys = append(*m.keys, fr.rvalue(k))
+			*m.vals = append(*m.vals, fr.rvalue(v))
+		}
+		return oNormal
+	}
 	s, ok := base.(oSlice)
 	if !ok {
 		return fr.abort("store into %s", showVal(base))
@@ -396,4 +420,52 @@ func appendVals(s oSlice, add []oval) oSlice {
 	}
 	copy(arr[s.length():], add)
 	return oSlice{typ: s.typ, arr: &arr, lo: 0, hi: n, capEnd: n}
+}
+
+// oMap is a small insertion-ordered map with abstract keys compared by oEqual.
+type oMap struct {
+	typ  types.Type
+	keys *[]oval
+	vals *[]oval
+}
+
+func (m oMap) find(k oval) int {
+	if m.keys == nil {
+		return -1
+	}
+	for i, kk := range *m.keys {
+		if eq, ok := oEqual(kk, k); ok && eq {
+			return i
+		}
+	}
+	return -1
+}
+
+func (fr *oFrame) mapLit(x *ast.CompositeLit, t types.Type) oval {
+	keys, vals := []oval{}, []oval{}
+	for _, el := range x.Elts {
+		kv, ok := el.(*ast.KeyValueExpr)
+		if !ok {
+			return oTop{"map literal without keys"}
+		}
+		keys = append(keys, fr.rvalue(fr.eval(kv.Key)))
+		vals = append(vals, fr.rvalue(fr.eval(kv.Value)))
+	}
+	return oMap{typ: t, keys: &keys, vals: &vals}
+}
+
+// mapIndex evaluates m[k] (value, present).
+func (fr *oFrame) mapIndex(x *ast.IndexExpr, m oMap) (oval, oval) {
+	k := fr.eval(x.Index)
+	if isTop(k) {
+		return oTop{"map key " + showVal(k)}, oTop{"?"}
+	}
+	if i := m.find(k); i >= 0 {
+		return fr.rvalue((*m.vals)[i]), oBool(true)
+	}
+	mt, _ := m.typ.Underlying().(*types.Map)
+	if mt == nil {
+		return oTop{"map type"}, oBool(false)
+	}
+	return fr.it.zero(mt.Elem()), oBool(false)
 }
